@@ -107,6 +107,74 @@ def one(ctx: Ctx, spec, dtype):
                           f"(or the new coordinate is {float(y[pos]) if st4 == 'ok' else y})", {**rp, "zero_col": pos})
 
 
+def one_float(ctx: Ctx, spec, dtype, Jt, family):
+    """same metamorphic checks on float matrices too large for exact rational orthogonal maps: Householder Q"""
+    rng = ctx.rng
+    m, n = Jt.shape
+    pv = None
+    if spec.pref == "weights":
+        pv = [rng.choice([-2, -1, 1, 2, 3]) for _ in range(m)]
+    A = spec.make(m, dtype, pv)
+    seed = rng.randrange(10 ** 6)
+    st, x = attempt(A, Jt, seed)
+    tol = (5e-3 if dtype == torch.float32 else 1e-7) * (30 if (spec.solver or spec.pinv) else 1)
+    rp = {"aggregator": spec.name, "family": family, "shape": [m, n], "dtype": str(dtype), "torch_seed": seed,
+          "J": Jt.tolist() if Jt.numel() <= 400 else "see generator seed", "pref": str(pv)}
+    ctx.case((spec.name, family, m, n, str(dtype), seed), nontrivial=True,
+             sample={"aggregator": spec.name, "family": family, "shape": [m, n], "dtype": str(dtype)})
+    ctx.count("float_family", f"{spec.name}:{family}")
+    if st != "ok":
+        ctx.violation(f"{spec.name} raised {x} on a finite {m}x{n} matrix ({family})", rp)
+        return
+    if spec.gramian:
+        g = torch.Generator().manual_seed(seed)
+        v = torch.randn(n, generator=g, dtype=torch.float64)
+        v = v / v.norm()
+        Q = torch.eye(n, dtype=torch.float64) - 2 * torch.outer(v, v)          # Householder reflection
+        JQ = (Jt.double() @ Q).to(dtype)
+        st2, y = attempt(A, JQ, seed)
+        xQ = x.double() @ Q
+        if st2 != "ok" or relerr(y.double(), xQ) > tol * 4:
+            ctx.violation(f"{spec.name}: A(J Q) differs from A(J) Q for an orthogonal (Householder) Q by "
+                          f"{relerr(y.double(), xQ) if st2 == 'ok' else y} on a {m}x{n} matrix ({family})", rp)
+            return
+    for _ in range(4 if spec.name == "Krum" else 1):
+        perm = list(range(n))
+        rng.shuffle(perm)
+        st3, y = attempt(A, Jt[:, perm], seed)
+        # Krum(k=1) returns one ROW of the matrix: the same row must be selected, bit for bit (squared distances
+        # are sums of the same terms in another order; the selection margin is checked to dominate that)
+        exact = spec.name == "Krum"
+        bad = st3 != "ok" or (not torch.equal(y, x[perm]) if exact else relerr(y, x[perm]) > tol * 4)
+        if bad and exact and st3 == "ok":
+            D = torch.cdist(Jt.double(), Jt.double(), compute_mode="donot_use_mm_for_euclid_dist")
+            sc = D.topk(k=m - 1 - 2 + 1, largest=False).values[:, 1:].sum(dim=1).sort().values
+            if float(sc[1] - sc[0]) < 1e-3 * float(sc[0]):
+                ctx.count("krum_float_family_skipped_near_tie")
+                continue
+        if bad:
+            ctx.violation(f"{spec.name}: permuting the columns does not permute the result "
+                          f"({relerr(y, x[perm]) if st3 == 'ok' else y}) on a {m}x{n} matrix ({family})", {**rp, "perm": perm})
+            return
+
+
+def float_families(ctx: Ctx, spec, dtype):
+    rng = ctx.rng
+    g = torch.Generator().manual_seed(rng.randrange(2 ** 31))
+    if spec.threshold:
+        # wide Jacobian of small gradients: every entry below norm_eps = 1e-4 but the largest singular value above it
+        m, n = rng.choice([2, 3]), rng.randint(300, 500)
+        J = (torch.rand(m, n, generator=g, dtype=torch.float64) * 7 + 2) * 1e-5 * torch.sign(torch.randn(m, n, generator=g, dtype=torch.float64))
+        J[1] = -J[0] * 0.8 + 0.3 * J[1]                      # conflicting rows
+        one_float(ctx, spec, torch.float64, J, "wide-small-entries")
+    if spec.name == "Krum":
+        # many rows sharing a large common component (distances << norms)
+        for _ in range(3):
+            m, n = rng.randint(28, 40), rng.choice([8, 32, 64])
+            J = 1000.0 + torch.randn(m, n, generator=g, dtype=torch.float64)
+            one_float(ctx, spec, torch.float32, J.to(torch.float32), "many-rows-common-component")
+
+
 def main(ctx: Ctx):
     ctx.lean_gate()
     cat = catalogue()
@@ -116,6 +184,8 @@ def main(ctx: Ctx):
             if spec.solver and i % 3:
                 continue
             one(ctx, spec, torch.float64 if i % 3 else torch.float32)
+            if i % 2 == 0:
+                float_families(ctx, spec, torch.float32 if i % 4 == 0 else torch.float64)
     return ctx.finish(
         rule="15 aggregators x (rational-SVD matrices with unambiguous rank / integer matrices) x preference, weight "
              "and leak vectors: A(J) == weighting(J) @ J (ConFIG: least-squares residual on the row span); A(JQ) == A(J)Q "
